@@ -17,6 +17,8 @@ thread_local! {
     /// derives to drop for the item being emitted (`//@drop-derive Clone`): the trait impl is then
     /// supplied, with a specification, by the environment (A-clone)
     pub static DROP_DERIVES: std::cell::RefCell<Vec<String>> = std::cell::RefCell::new(Vec::new());
+    /// receivers whose `.iter()` is a user method already returning the shim type (`//@viter-skip path`)
+    pub static VITER_SKIP: std::cell::RefCell<Vec<String>> = std::cell::RefCell::new(Vec::new());
 }
 
 pub struct ClosureInfo {
@@ -275,7 +277,8 @@ impl<'ast, 'a> Visit<'ast> for ViterVisitor<'a> {
             // receiver `.iter()` / `.into_iter()` with no arguments -> `.viter()`
             match &*e.receiver {
                 syn::Expr::MethodCall(inner)
-                    if (inner.method == "iter" || inner.method == "into_iter") && inner.args.is_empty() =>
+                    if (inner.method == "iter" || inner.method == "into_iter") && inner.args.is_empty()
+                        && !VITER_SKIP.with(|v| { let (a, b) = br(inner.receiver.span()); v.borrow().contains(&norm(&self.src[a..b])) }) =>
                 {
                     let (s, en) = br(inner.method.span());
                     self.edits.push(Edit { start: s, end: en, text: "viter".into(), kind: "R5 viter".into(), prio: 0 });
